@@ -53,6 +53,23 @@ Mutators(k) ==
                                "delete_rdataset", "replace_rdataset", "__setitem__", "__delitem__"}
       [] OTHER             -> {}
 
+(* Calls of a mutator with arguments that request NO change (same TTL, an element that is
+   already present, an empty operand ...) must be refused as well - with the exceptions
+   listed here, which are exact calls observed on the current tree (triaged in
+   notes/C11.md, section 8): inherited collections.abc / dns.set.Set code that, given an
+   empty operand / an absent key with a default / a present key, returns before it reaches
+   any write.  <<kind, class, method, arguments>>. *)
+NoopTolerated ==
+    {<<"rdataset", "ImmutableRdataset", "difference_update", "(rds_empty)">>,
+     <<"nodes", "BTreeDict", "pop", "(absent,node_new)">>,
+     <<"nodes", "BTreeDict", "setdefault", "(present)">>,
+     <<"nodes", "BTreeDict", "setdefault", "(present,node_new)">>,
+     <<"nodes", "BTreeDict", "update", "()">>,
+     <<"nodes", "BTreeDict", "update", "(empty_map)">>,
+     <<"delegations", "Delegations", "__ior__", "(empty_set)">>,
+     <<"delegations", "Delegations", "__isub__", "(empty_set)">>,
+     <<"delegations", "Delegations", "__ixor__", "(empty_set)">>}
+
 Begin(k, s, w) ==
     /\ kind = ""
     /\ kind' = k /\ st' = s /\ world' = w
@@ -64,6 +81,11 @@ Refused(m) ==
     /\ kind # ""
     /\ attempted' = [attempted EXCEPT ![kind] = @ \cup {m}]
     /\ UNCHANGED <<kind, st, world, offered, examined>>
+
+(* a mutator called with arguments that request no change: refused too ... *)
+RefusedNoop(m) == kind # "" /\ UNCHANGED vars
+(* ... or, for the listed calls only, a silent return that changes nothing *)
+SilentNoop(cls, m, args) == kind # "" /\ <<kind, cls, m, args>> \in NoopTolerated /\ UNCHANGED vars
 
 (* end of the examination of one object; `available` = the names its mutable twin offers *)
 Done(available) ==
@@ -84,7 +106,8 @@ AllNames == UNION {Mutators(k) : k \in Kinds}
 Next ==
     \/ \E k \in Kinds, s \in States : Begin(k, s, world)
     \/ Observe
-    \/ \E m \in AllNames : Refused(m)
+    \/ \E m \in AllNames : Refused(m) \/ RefusedNoop(m)
+    \/ \E c \in NoopTolerated : SilentNoop(c[2], c[3], c[4])
     \/ \E av \in {{}, Mutators(kind)} : Done(av)
 
 Spec == Init /\ [][Next]_vars
